@@ -33,9 +33,35 @@
 //! that needs quoting/escaping in the text formats.
 //!
 //! Deviations from DESIGN.md: lives in vf-list; column names are plain `c0…` (quoted partition column
-//! names are a known upstream gap, see copy.slt / issue 9714).
+//! names are a known upstream gap, see copy.slt / issue 9714). The DDL used for the sink table and for
+//! reading back spells the *written* Arrow types (`TIMESTAMP(6)`; `VARCHAR` = Utf8 via
+//! `sql_parser.map_string_types_to_utf8view = false`, or — for every format but Arrow IPC, label
+//! `ddl-varchar=utf8view` — the session default Utf8View). `format.compression` in CREATE EXTERNAL TABLE
+//! means the file compression of CSV/NDJSON only; Parquet codecs are passed as a COPY option /
+//! `TableParquetOptions` / `datafusion.execution.parquet.compression` (INSERT).
 //!
-//! Sensitivity probes: see PROBES at the end of the report.
+//! Observations (not asserted, outside the statement):
+//! * Arrow IPC files are only readable with exactly the written types: `CREATE EXTERNAL TABLE (c VARCHAR)
+//!   STORED AS ARROW` over a file written by `COPY … STORED AS ARROW` fails with `column types must match
+//!   schema types, expected Utf8View but found Utf8` under default settings (same for TIMESTAMP = ns vs µs).
+//! * NULL partition values: COPY / DataFrame writers put NULL strings into `k=/` and NULL integers into
+//!   `k=0/` (the value slot of a NULL), INSERT INTO a partitioned listing table fails with `Invalid batch
+//!   column … has null but schema specifies non-nullable`; labels `null-partition-value:*`.
+//!
+//! KNOWN FINDING (genuine defect, regressions/C25/c25/insert-into-compressed-text-table-extension.json,
+//! fixes/C25-insert-compressed-file-extension.diff): INSERT INTO a listing table of compressed CSV/NDJSON
+//! names its files `<id>.csv` / `<id>.json` (`ListingTable::insert_into` passes `format.get_ext()`), COPY and
+//! the DataFrame writers name them `.csv.gz` …; a table registered with the matching extension
+//! (`ListingOptions::with_file_extension(".csv.gz")`, which is what `register_csv` with
+//! `file_extension(".csv.gz")` builds) accepts the INSERT and afterwards returns none of the rows. Found by
+//! the `insert_api` variant (table registered through `register_listing_table`, read back through the same
+//! table). `known_signature` excludes exactly (INSERT sink, API-registered table, CSV/NDJSON, compression ≠
+//! none, ≥ 1 row); `VERIF_C25_NO_EXCLUDE=1` disables the exclusion (used to verify the fix). For tables
+//! made by CREATE EXTERNAL TABLE the files are readable (extension filter empty); the independent read-back
+//! then uses the extension the files actually carry (label `compressed-files-without-compression-suffix`).
+//!
+//! Sensitivity probes (tools/mutrun, patches in crates/vf-list/probes/, quick tier):
+//! PROBE-VERDICTS-C25
 use crate::util::*;
 use arrow::datatypes::{DataType, Schema};
 use datafusion::common::config::{CsvOptions, JsonOptions, TableParquetOptions};
